@@ -256,7 +256,18 @@ pub struct Config {
     pub head: bool,
     pub upgrade: bool,
     pub te: Option<TeSpec>,
+    /// how the response (and its declared length) was built
+    pub build: usize,
 }
+
+/// ways of building the same response: the selection must not depend on them
+pub const BUILDS: [&str; 5] = [
+    "Response::new(status, [], reader, length)",
+    "Response::new(status, [], reader, None) + Content-Length header through with_header",
+    "Response::new(status, [Content-Length header], reader, None)",
+    "Response::new(...).boxed()",
+    "Response::empty(status).with_data(reader, length)",
+];
 
 impl Config {
     fn to_json(&self) -> Value {
@@ -269,6 +280,7 @@ impl Config {
             "upgrade": self.upgrade,
             "te_header": self.te.as_ref().map(|t| format!("{}: {}", t.header_name, t.text)),
             "te_wellformed": self.te.as_ref().map(|t| t.members.is_some()),
+            "built_by": BUILDS[self.build],
         })
     }
 }
@@ -282,7 +294,7 @@ fn space(tier: Tier) -> (Space, Vec<Option<TeSpec>>, Vec<(Option<usize>, Option<
         }
     }
     (
-        Space::new(&[VERSIONS.len(), STATUSES.len(), tl.len(), 2, 2, te.len()]),
+        Space::new(&[VERSIONS.len(), STATUSES.len(), tl.len(), 2, 2, te.len(), BUILDS.len()]),
         te,
         tl,
     )
@@ -294,13 +306,15 @@ fn body_bytes(n: usize) -> Vec<u8> {
 
 pub fn judge(cfg: &Config) -> Result<(Coding, bool), (String, String)> {
     let body = body_bytes(cfg.length.unwrap_or(11));
-    let mut resp = Response::new(
-        StatusCode(cfg.status),
-        vec![],
-        Cursor::new(body.clone()),
-        cfg.length,
-        None,
-    );
+    let cl_header = cfg.length.map(|l| Header::from_bytes(&b"Content-Length"[..], l.to_string().as_bytes()).unwrap());
+    let reader = || -> Box<dyn std::io::Read + Send> { Box::new(Cursor::new(body.clone())) };
+    let mut resp: Response<Box<dyn std::io::Read + Send>> = match (cfg.build, cl_header) {
+        (1, Some(h)) => Response::new(StatusCode(cfg.status), vec![], reader(), None, None).with_header(h),
+        (2, Some(h)) => Response::new(StatusCode(cfg.status), vec![h], reader(), None, None),
+        (3, _) => Response::new(StatusCode(cfg.status), vec![], Cursor::new(body.clone()), cfg.length, None).boxed(),
+        (4, _) => Response::empty(StatusCode(cfg.status)).with_data(reader(), cfg.length),
+        _ => Response::new(StatusCode(cfg.status), vec![], reader(), cfg.length, None),
+    };
     if let Some(t) = cfg.threshold {
         resp = resp.with_chunked_threshold(t);
     }
@@ -482,6 +496,7 @@ impl Check for C05 {
                 head: d[3] == 1,
                 upgrade: d[4] == 1,
                 te: te[d[5]].clone(),
+                build: d[6],
             };
             run_cfg(&cfg, acc);
         });
@@ -489,7 +504,7 @@ impl Check for C05 {
     fn rule(&self, tier: Tier) -> String {
         let (sp, te, tl) = space(tier);
         format!(
-            "full product version{{0.9,1.0,1.1}} x status{:?} x (threshold,length){} pairs x HEAD x upgrade x {} TE values (absent, singles in 3 letter cases, all ordered pairs{} of chunked/identity/gzip with q in {{absent,1,0.9,0.5,0.001,0}}, OWS variants, {} malformed-q robustness values) = {} configurations, each printed by Response::raw_print and compared with the reference selection function; non-trivial = version 1.1 and status not 1xx/204 (selection not forced)",
+            "full product version{{0.9,1.0,1.1}} x status{:?} x (threshold,length){} pairs x HEAD x upgrade x 5 ways of building the response and declaring its length (constructor argument, Content-Length header through with_header or the constructor list, boxed(), with_data) x {} TE values (absent, singles in 3 letter cases, all ordered pairs{} of chunked/identity/gzip with q in {{absent,1,0.9,0.5,0.001,0}}, OWS variants, {} malformed-q robustness values) = {} configurations, each printed by Response::raw_print and compared with the reference selection function; non-trivial = version 1.1 and status not 1xx/204 (selection not forced)",
             STATUSES, tl.len(), te.len(),
             if tier == Tier::Thorough { " and triples" } else { "" },
             te.iter().filter(|t| t.as_ref().map_or(false, |t| t.members.is_none())).count(),
@@ -523,6 +538,7 @@ impl Check for C05 {
             head: c["head"].as_bool().unwrap_or(false),
             upgrade: c["upgrade"].as_bool().unwrap_or(false),
             te,
+            build: BUILDS.iter().position(|b| Some(*b) == c["built_by"].as_str()).unwrap_or(0),
         };
         acc.notes.insert(format!("replaying {}", cfg.to_json()));
         run_cfg(&cfg, acc);
